@@ -934,13 +934,17 @@ func (c *Client) StartSending() {
 	}
 
 	// take the initial set of messages that were enqueued and queue them.
+	// The queue is emptied under sendMu but pushed to the channel without it: q() can
+	// block on the channel, and AwaitConverged reads sendq under sendMu while holding
+	// awaiting, which the receiver needs to make progress.
 	c.qs.sendMu.Lock()
-	defer c.qs.sendMu.Unlock()
-	for _, m := range c.qs.sendq {
+	q := c.qs.sendq
+	c.qs.sendq = []*spb.ModifyRequest{}
+	c.qs.sendMu.Unlock()
+	for _, m := range q {
 		log.V(2).Infof("sending %s to modify channel", m)
 		c.q(m)
 	}
-	c.qs.sendq = []*spb.ModifyRequest{}
 }
 
 // StopSending toggles the client to stop sending messages to the server, meaning
